@@ -18,7 +18,7 @@ meta = {
     "author": "independent sub-agent given only the property text and a scratch worktree",
     "author_ran": a.get("ran"),
     "confirmed_by_me": "tools/seedverify.sh %s %s in the scratch worktree: demo passes on the clean tree, `go build ./...` ok, `go test -vet=off -count=1 ./...` has no failing package with the change, demo fails with the change" % (ID, n),
-    "checks_run": "tools/seedcheck.sh (git -C /repo apply patch.diff; symgo check <id> --tier quick; git -C /repo checkout -- .)",
+    "checks_run": "tools/seedcheck.sh (round 3: patch.diff applied to a scratch worktree of /repo, `VERIF_REPO=<worktree> symgo check <id> --tier quick`, worktree removed; rounds 1-2: applied to /repo itself and undone)",
     "caught_by": [] if caught == "none" else caught.split(","),
     "detail": detail,
 }
